@@ -1,10 +1,100 @@
 import ZixModel.Model.CopyFile
-/-! # C14 — copy_file -/
-namespace Zix.C14
-open Zix.CopyFile
+import ZixModel.Lemmas.CopyFile
+/-! # C14 — copy_file reports success only for a complete copy and never harms the source
 
-/-- A source that is not a regular file is refused with BAD_ARG (when it could be opened and examined). -/
-theorem copy_refuses_nonregular_example :
-    (copyFile ⟨.directory, [], .absent, 4096⟩ true (fun _ _ => none)).status = stBadArg := by decide
+Property theorems only; helper lemmas live in `ZixModel/Lemmas/CopyFile.lean`.
+`fault : Call → Nat → Option Fault` is an ARBITRARY oracle: the n-th call of each kind may fail with
+any errno or transfer any short count.  Two facts about the platform are hypotheses: a failing call
+sets errno to a non-zero value (`Legal`), and (built into the model) a successful call leaves errno
+unchanged. -/
+namespace Zix.C14
+open Zix.CopyFile Zix.Errno
+
+/-- A failing system call reports a non-zero errno. -/
+def Legal (fault : Call → Nat → Option Fault) : Prop := ∀ c n e, fault c n = some (.err e) → e ≠ 0
+
+/-- SUCCESS is returned only if the destination then holds exactly the source's bytes — for every
+source, destination state, option value and every sequence of I/O outcomes. -/
+-- ORIGINAL:
+-- theorem copy_success_complete (w : World) (ow : Bool) (fault : Call → Nat → Option Fault) (hl : Legal fault)
+--     (hs : (copyFile w ow fault).status = 0) :
+--     (copyFile w ow fault).st.dst = some w.src
+-- The original is FALSE in the model for `w.blk = 0` (see `copy_success_complete_needs_blk` below): a
+-- zero-sized buffer makes the first `read` return 0 bytes, which `copy_blocks` takes for end-of-file.
+-- The C code cannot get there: `zix_get_block_size` returns 4096 unless both `st_blksize` are positive,
+-- so `0 < w.blk` is a fact about the caller of the modelled part, added here as a hypothesis.
+theorem copy_success_complete (w : World) (ow : Bool) (fault : Call → Nat → Option Fault) (hl : Legal fault)
+    (hblk : 0 < w.blk)
+    (hs : (copyFile w ow fault).status = 0) :
+    (copyFile w ow fault).st.dst = some w.src :=
+  copyFile_complete w ow fault hl hblk hs
+
+/-- The counterexample to the original statement of `copy_success_complete` (block size 0, kernel copy
+unavailable): SUCCESS with an empty destination. -/
+theorem copy_success_complete_needs_blk :
+    let w : World := ⟨.regular, [1, 2, 3], .absent, 0⟩
+    let fault : Call → Nat → Option Fault := fun c n => if c = .cfr ∧ n = 0 then some (.err EXDEV) else none
+    Legal fault ∧ (copyFile w true fault).status = 0 ∧ (copyFile w true fault).st.dst = some [] := by
+  refine ⟨?_, by decide, by decide⟩
+  intro c n e h
+  simp only at h
+  split at h
+  · simp only [Option.some.injEq, Fault.err.injEq] at h; subst h; decide
+  · exact absurd h (by simp)
+
+/-- The source's contents are never modified, whatever happens. -/
+theorem copy_source_untouched (w : World) (ow : Bool) (fault : Call → Nat → Option Fault) :
+    (copyFile w ow fault).st.src = w.src :=
+  (copyFile_bal w ow fault).1
+
+/-- No failing I/O call (short counts, an unavailable kernel copy — EXDEV / EINVAL / ENOSYS from
+copy_file_range — and a refused block allocation are not failures) and two different regular files
+(or a fresh destination): SUCCESS. -/
+theorem copy_no_faults_succeeds (w : World) (ow : Bool) (fault : Call → Nat → Option Fault)
+    (hreg : w.srcKind = .regular) (hblk : 0 < w.blk)
+    (hdst : w.dst = .absent ∨ (ow = true ∧ ∃ c, w.dst = .file c))
+    (hok : ∀ c n e, fault c n = some (.err e) → (c = .alloc ∨ (c = .cfr ∧ (e = EXDEV ∨ e = EINVAL ∨ e = ENOSYS))))
+    (hshort : ∀ c n k, fault c n = some (.short k) → 0 < k) :
+    (copyFile w ow fault).status = 0 := by
+  have _ := hblk  -- not needed: a zero-sized buffer only makes the copy incomplete, not unsuccessful
+  exact copyFile_ok w ow fault hok hshort hreg hdst
+
+/-- Without the overwrite option an existing destination is left untouched and EXISTS is returned
+(when the source could be opened and examined). -/
+theorem copy_excl_exists (w : World) (fault : Call → Nat → Option Fault) (c : List Nat)
+    (hreg : w.srcKind = .regular) (hd : w.dst = .file c)
+    (h1 : fault .openSrc 0 = none) (h2 : fault .fstatSrc 0 = none) (h3 : ∀ e, fault .openDst 0 ≠ some (.err e)) :
+    (copyFile w false fault).status = 4 ∧ (copyFile w false fault).st.dst = some c :=
+  ⟨copyFile_excl_status w fault c hd hreg h1 h2 h3, copyFile_excl w fault c hd⟩
+
+/-- An existing destination is never modified when the call fails before any byte is copied with
+the option off; more generally without the overwrite option an existing file is never changed. -/
+theorem copy_excl_never_modifies (w : World) (fault : Call → Nat → Option Fault) (c : List Nat)
+    (hd : w.dst = .file c) : (copyFile w false fault).st.dst = some c :=
+  copyFile_excl w fault c hd
+
+/-- A source that is not a regular file is refused with an error. -/
+theorem copy_refuses_nonregular (w : World) (ow : Bool) (fault : Call → Nat → Option Fault) (hl : Legal fault)
+    (hk : w.srcKind ≠ .regular) : (copyFile w ow fault).status ≠ 0 :=
+  copyFile_nonregular w ow fault hl hk
+
+/-- A destination that is the source itself (same path, hard link, symlink) is refused and the
+source keeps its bytes. -/
+theorem copy_onto_itself_refused (w : World) (ow : Bool) (fault : Call → Nat → Option Fault) (hl : Legal fault)
+    (hd : w.dst = .sameAsSrc) :
+    (copyFile w ow fault).status ≠ 0 ∧ (copyFile w ow fault).st.dst = some w.src :=
+  copyFile_same w ow fault hl hd
+
+/-- Every descriptor opened is closed, on every path. -/
+theorem copy_closes_all (w : World) (ow : Bool) (fault : Call → Nat → Option Fault) :
+    (copyFile w ow fault).st.opened = (copyFile w ow fault).st.closed := by
+  have h := (copyFile_bal w ow fault).2
+  simpa [initSt] using h
+
+/-! ## non-vacuity -/
+-- cross-filesystem copy with a short read and a short write: complete
+example : (copyFile ⟨.regular, [1, 2, 3, 4, 5], .file [9, 9], 4⟩ true
+    (fun c n => if c = .cfr ∧ n = 0 then some (.err EXDEV) else if c = .write ∧ n = 0 then some (.short 1) else none)).status = 0 := by decide
+example : (copyFile ⟨.directory, [], .absent, 4096⟩ true (fun _ _ => none)).status = stBadArg := by decide
 
 end Zix.C14
